@@ -40,7 +40,8 @@ THEOREMS = [
     ("Anytree.Props.C04.rightSibling_eq", "full"),
 ]
 NOT_COVERED = []
-RULE = ("static: every ordered shape up to N nodes (quick 5, thorough 7), shuffled labels, plus a second one-node tree, "
+RULE = ("node classes: plain NodeMixin, LightNodeMixin, and a class with value __eq__/__hash__ under which many distinct nodes "
+        "compare equal; static: every ordered shape up to N nodes (quick 5, thorough 7), shuffled labels, plus a second one-node tree, "
         "all attributes of all nodes, commonancestors for (), every single, every pair, sampled triples; random shapes up "
         "to 12/40 nodes; histories: random fault-free call sequences over 4-6 nodes with all attributes of all nodes after "
         "every call. Distinct = distinct case; non-trivial = at least 3 nodes in one tree.")
@@ -57,13 +58,14 @@ def generate(tier, rng):
             tups += [[a, n + 5] for a in labs[:2]]
             for _ in range(6):
                 tups.append([rng.choice(labs) for _ in range(3)])
-            yield {"fam": "nav", "trees": [t, extra], "ca": tups, "cls": rng.choice(["nm", "light"])}
+            for cls in ("nm", "light", "eq"):
+                yield {"fam": "nav", "trees": [t, extra], "ca": tups, "cls": cls}
     for _ in range(60 if tier == "quick" else 800):
         n = rng.randrange(6, 13 if tier == "quick" else 41)
         t = gen.labelled(gen.random_shape(rng, n), rng, True)
         labs = gen.tree_labels(t)
         tups = [[rng.choice(labs) for _ in range(rng.choice([2, 2, 3, 4]))] for _ in range(12)]
-        yield {"fam": "nav", "trees": [t], "ca": tups, "cls": rng.choice(["nm", "light"])}
+        yield {"fam": "nav", "trees": [t], "ca": tups, "cls": rng.choice(["nm", "light", "eq"])}
     for _ in range(150 if tier == "quick" else 2500):
         n0 = rng.randrange(3, 7)
         fl = rng.choice(["nm", "light"])
